@@ -665,6 +665,17 @@ def run_property(pid, tier, seed):
     if not st['harness_ok']:
         broken.append('implementation does not build with hooks: ' + '; '.join(st['errors'])[:800])
         return res
+    # extraction is in the trusted base of the correspondence check: a fixed sample is evaluated a second time inside Coq
+    # (vm_compute on the definitions the theorems are about) and compared with the extracted model and the implementation
+    try:
+        import kernelcheck
+        kc = kernelcheck.run(st)
+    except Exception as e:
+        kc = {'error': repr(e)}
+    res['stats']['kernel_cross_check'] = {k: kc.get(k) for k in ('cases', 'kernel_evaluated', 'kernel_vs_extracted', 'kernel_vs_impl', 'first', 'errors', 'error', 'wall_s', 'cached', 'sample')}
+    if kc.get('kernel_vs_extracted'):
+        broken.append('extracted model differs from the kernel evaluation of the same definitions on %d of %d cases (extraction or driver unfaithful): %s'
+                      % (kc['kernel_vs_extracted'], kc.get('kernel_evaluated', 0), json.dumps(kc.get('first'))[:400]))
     if spec.get('runner'):
         import extra
         HELPERS['load_corpus'] = load_corpus
@@ -984,7 +995,7 @@ TRUSTED = [
     "axioms: none (Print Assumptions of every property theorem is checked to be 'Closed under the global context')",
     "translator translator/rs2coq.py (tables, literal lists, colour codes, messages, range expression read from the Rust source)",
     "dumped tables gen/OracleTables.v measured by `grexv dump` from regex-syntax, std and unic-ucd-category as linked",
-    "correspondence check: cfg(grex_verif) hooks, harness/src/bin/grexv.rs, extraction (ExtrOcamlBasic only, no Extract Constant) + driver/driver.ml",
+    "correspondence check: cfg(grex_verif) hooks, harness/src/bin/grexv.rs, extraction (ExtrOcamlBasic only, no Extract Constant) + driver/driver.ml; extraction cross-checked on every run against vm_compute of the same definitions inside Coq on a fixed sample (lib/kernelcheck.py)",
     "external code modelled, not verified: regex crate (judge: its PikeVM and dense DFA), unicode-segmentation and str::to_lowercase (per-case oracle data), petgraph iteration order (reproduced, validated by every stage comparison)",
 ]
 
@@ -1031,6 +1042,7 @@ def finish(pid, res):
         'known_findings': res['known'],
         'timing': {k: stats.get(k) for k in ('t_impl', 't_model')},
         'engine_model_validation': stats.get('engine_model'),
+        'extraction_cross_check': stats.get('kernel_cross_check'),
         'coqchk': res.get('coqchk'),
     }
     ev = {'property_id': pid, 'tier': tier if tier in ('quick', 'thorough') else 'quick', 'seed': seed, 'level': 'proof', 'coverage': cov,
